@@ -141,6 +141,14 @@ class C04(PropBase):
             step["target"] = rng.choice(["int", "float"])
         elif op == "s_temp2text":
             step["target"] = rng.choice(["str", "bytes"])
+            rr = rng.random()
+            if rr < 0.25:
+                # the value is an instance of a subclass of the datetime member (a user's own, or the parser's)
+                step["v"] = {"$tsub": v}
+            elif rr < 0.4:
+                # (the parser's duration class keeps float-derived fields of its own: exact below 2**53 microseconds only)
+                far = k == "td" and abs(v["$td"][0]) > 100_000
+                step["v"] = {"$tsub": v} if far else {"$pend": [k, v]}
         return step
 
     def _twin(self, rng, step):
